@@ -154,10 +154,37 @@ def cleanup_workdir():
     _workdir = None
 
 
+_built_for_cases = set()
+
+
+def ensure_modules(imports):
+    """the executable model modules a generated case file imports must be compiled (a fresh checkout has no
+    .vo; the proof closure of Props/<id>.vo does not always contain Model/Dump or the *Dump modules)"""
+    mods = ["Model.Dict", "Model.Terms", "Model.Dump"]
+    for imp in imports:
+        m = re.match(r"\s*From\s+PV\s+Require\s+(?:Import|Export)?\s*(.*?)\.\s*$", imp.strip(), re.S)
+        if m:
+            mods += m.group(1).split()
+        else:
+            m = re.match(r"\s*Require\s+(?:Import|Export)?\s*(.*?)\.\s*$", imp.strip(), re.S)
+            if m:
+                mods += [x[3:] for x in m.group(1).split() if x.startswith("PV.")]
+    targets = sorted(set(x.replace(".", "/") + ".vo" for x in mods
+                         if os.path.exists(os.path.join(COQ, x.replace(".", "/") + ".v"))))
+    key = tuple(targets)
+    if key in _built_for_cases:
+        return
+    ok, log = make(targets)
+    if not ok:
+        raise CoqError("cannot build the model modules %s:\n%s" % (targets, log[-3000:]))
+    _built_for_cases.add(key)
+
+
 def run_cases(name, imports, run_expr, cases, shard=300, input_type=None):
     """cases: list of (coq_input_literal, expected_python_dump).
     Evaluates [mismatches run_expr cases] inside Coq (vm_compute), sharded and in parallel.
     Returns the sorted list of indices (into `cases`) on which model and implementation disagree."""
+    ensure_modules(imports)
     wd = workdir()
     files = []
     for k in range(0, len(cases), shard):
@@ -206,6 +233,7 @@ def run_cases(name, imports, run_expr, cases, shard=300, input_type=None):
 
 def model_output(imports, run_expr, coq_input):
     """pretty-printed model result for one input (used in replay reports)"""
+    ensure_modules(imports)
     wd = workdir()
     path = os.path.join(wd, "show_%s.v" % hashlib.md5(coq_input.encode()).hexdigest()[:10])
     with open(path, "w") as f:
